@@ -105,6 +105,8 @@ def gen_links(tier, seed, rels):
                         links.append({"rel": rel, "base": base, "other": o})
                 elif rel == "shift":
                     sh = rng.choice([-1000, -37, 1, 5, 250, 999])
+                    if not -32768 <= ndA + sh <= 32767:       # the shifted placeholder must itself be an int16 value
+                        sh = -sh
                     o = with_y(c, encode([v + sh for v in vals], miss, ndA + sh), ndA + sh)
                     links.append({"rel": rel, "shift": sh, "base": base, "other": o})
                 elif rel == "reverse":
